@@ -126,6 +126,38 @@ def run(ctx, idx):
                 stale = stale or (n, nm)
     ctx.ob("C04.f", con_f, K.rel(cfe), t0.line, stale is None, "the thresholds compared are the ones used afterwards" if stale is None else
            "`%s` is tested before `%s` gets its final value (it is assigned again before `%s`): when the default taken from the data equals the threshold that was given, the ramp divides by zero - on a plain array the cells become NaN, which passes both clamp comparisons" % (t0.text()[:50], stale[1], stale[0].text()[:40]))
+    # C04.g: NaN passes both clamp comparisons - two ways to make one that the clamp cannot repair
+    ctx.rule("C04.g", "No NaN is made where the clamp cannot reach it: (1) the mean over the selected layers of FuzzySelectedUnion is a MASKED mean - over no layers (NumberToConsider = 0 passes the count guard) numpy.ma.mean gives missing cells, the mean of the plain data gives NaN in valid ones; (2) the segments of a curve select disjoint cells - one end strict, the other inclusive: with both ends inclusive a zero-length segment (coinciding control points, a z-score curve over a grid without spread) selects the cells on its node and maps them with an infinite slope.")
+    su_ = {d_.cls.name: (d_, r_) for d_, r_ in R.results(idx).values()}.get("FuzzySelectedUnion")
+    if su_ is None:
+        raise AnalysisError("C04.g: FuzzySelectedUnion vanished")
+    lr_ = [(n_, sel_, m_) for n_, sel_, m_, fk_ in su_[1].layer_reduces if m_ in ("mean", "average", "sum")]
+    plain_ = [n_ for n_, sel_, m_ in lr_ if su_[1].layer_reduce_kind.get(id(n_)) == "plain"]
+    ctx.ob("C04.g", "%s.execute::masked-layer-mean" % su_[0].key, su_[0].module.rel, (plain_ or [x_[0] for x_ in lr_] or [su_[0].execute.node])[0].lineno, not plain_,
+           "the selected layers are averaged as a masked array" if not plain_ else
+           "`%s` averages the selected layers as PLAIN data: over an empty selection (NumberToConsider = 0 passes the guard) that is NaN in every valid cell - not missing, as numpy.ma.mean gives - and NaN passes both comparisons of the final clamp" % K.src(plain_[0])[:60])
+    n_seg = 0
+    for nm_ in ("NormalizeCurve", "NormalizeCurveZScore"):
+        cr_ = {d_.cls.name: (d_, r_) for d_, r_ in R.results(idx).values()}.get(nm_)
+        if cr_ is None:
+            raise AnalysisError("C04.g: %s vanished" % nm_)
+        fx_ = cr_[0].execute
+        for lp_ in [n_ for n_ in ast.walk(getattr(fx_, "node_orig", None) or fx_.node) if isinstance(n_, (ast.For, ast.While))]:
+            for e_ in ast.walk(lp_):
+                pair_ = None
+                if isinstance(e_, ast.BinOp) and isinstance(e_.op, ast.BitAnd) and isinstance(e_.left, ast.Compare) and isinstance(e_.right, ast.Compare):
+                    pair_ = (e_.left, e_.right)
+                elif isinstance(e_, ast.Call) and K.src(e_.func).split(".")[-1] == "logical_and" and len(e_.args) >= 2 and all(isinstance(a_, ast.Compare) for a_ in e_.args[:2]):
+                    pair_ = (e_.args[0], e_.args[1])
+                elif isinstance(e_, ast.Compare) and len(e_.ops) == 2:
+                    pair_ = (ast.Compare(left=e_.left, ops=[e_.ops[0]], comparators=[e_.comparators[0]]), ast.Compare(left=e_.comparators[0], ops=[e_.ops[1]], comparators=[e_.comparators[1]]))
+                if pair_ is None or not all(len(c_.ops) == 1 and isinstance(c_.ops[0], (ast.Lt, ast.LtE, ast.Gt, ast.GtE)) for c_ in pair_):
+                    continue
+                n_seg += 1
+                strict_ = [isinstance(c_.ops[0], (ast.Lt, ast.Gt)) for c_ in pair_]
+                ctx.ob("C04.g", "%s.execute::segments-are-disjoint@%d" % (cr_[0].key, n_seg), cr_[0].module.rel, e_.lineno, any(strict_), "one end of the segment test is strict" if any(strict_) else
+                       "`%s` includes BOTH ends of a segment: a zero-length segment (two control points on the same raw value - the z-score curve over a grid without spread, or a node given twice) then selects the cells on its node and maps them with slope inf / nan; the last such segment leaves NaN in the result, which the clamp cannot repair" % K.src(e_)[:70])
+    ctx.floor("C04.g", "segment tests of the curve commands", n_seg, 2)
     # C04.b
     sym = Arr(kind="masked", alias=frozenset({"X"}), M=frozenset({"X"}), D=frozenset({"X"}), shape="same")
     res, out, fi = R.summarize_helper(idx, "mpilot.utils", "insure_fuzzy", [sym, Scal(sym="lo"), Scal(sym="hi")])
